@@ -390,6 +390,19 @@ func tthEncCases(c *Ctx) []json.RawMessage {
 	add(TTHCase{Mode: "enc", Str: []StrKV{{K: StrSpec{Len: 65535, Seed: 30}, V: StrSpec{Len: 0}}}})
 	add(TTHCase{Mode: "enc", Int: []IntKV{{K: 1, V: StrSpec{Len: 65536, Seed: 31}}}}) // length does not fit 16 bits: must fail
 	add(TTHCase{Mode: "enc", Int: []IntKV{{K: 1, V: StrSpec{Len: 70000, Seed: 32}}}})
+	// far past the limit: word counts that wrap around 16 bits (4x, 8x, 16x the limit) must still be refused
+	for _, k := range []int{2, 3, 4, 5, 6, 9, 13, 18} {
+		var kv []IntKV
+		for i := 0; i < k; i++ {
+			kv = append(kv, IntKV{K: 256 + i, V: StrSpec{Len: 60000, Seed: 100 + i}})
+		}
+		add(TTHCase{Mode: "enc", Int: kv})
+		var sk []StrKV
+		for i := 0; i < k; i++ {
+			sk = append(sk, StrKV{K: StrSpec{Lit: []int{'k', 48 + i}}, V: StrSpec{Len: 65535 - i, Seed: 120 + i}})
+		}
+		add(TTHCase{Mode: "enc", Str: sk, Seq: k})
+	}
 	for _, p := range []int{0, 2, 3, 4, 16, 17, 1, 5, 255} { // unsupported protocol ids: encoder accepts, decoder must reject
 		add(TTHCase{Mode: "enc", Proto: p, Seq: 77})
 	}
